@@ -274,8 +274,15 @@ func TestVerif_C07_History(t *testing.T) {
 		Gen: func(t *rapid.T) pmSc {
 			s := pmSc{Cache: rapid.IntRange(1, 3).Draw(t, "cache"), GCS: rapid.SampledFrom([]int{0, 70, 300, 1100}).Draw(t, "gc")}
 			s.Ops = rapid.SliceOfN(rapid.Custom(func(t *rapid.T) pmOp {
+				// hot keys / hot peers: multi-step histories on one (key, peer) pair (add, read, expire, read, re-add, read) must be likely
 				key := rapid.IntRange(0, len(c07Keys)-1).Draw(t, "key")
+				if rapid.IntRange(0, 9).Draw(t, "hotKey") < 6 {
+					key = rapid.IntRange(0, 1).Draw(t, "hotKeyIdx")
+				}
 				p := rapid.IntRange(0, 5).Draw(t, "peer")
+				if rapid.IntRange(0, 9).Draw(t, "hotPeer") < 6 {
+					p = rapid.IntRange(1, 2).Draw(t, "hotPeerIdx")
+				}
 				switch rapid.IntRange(0, 15).Draw(t, "kind") {
 				case 0, 1, 2, 3, 4:
 					return pmOp{Op: "add", Key: key, Peer: p, Addr: rapid.Bool().Draw(t, "addr")}
@@ -292,7 +299,7 @@ func TestVerif_C07_History(t *testing.T) {
 				default:
 					return pmOp{Op: "plant", Key: key, Peer: p, Kind: rapid.SampledFrom([]string{"badtime", "badpeer"}).Draw(t, "plantKind")}
 				}
-			}), 1, 30).Draw(t, "ops")
+			}), 1, 45).Draw(t, "ops")
 			return s
 		},
 		Run: func(t *testing.T, s pmSc) verifsim.Result { return runPM(t, s) },
